@@ -5,6 +5,7 @@ package main
 import (
 	"fmt"
 	"go/ast"
+	"go/types"
 	"regexp"
 	"strings"
 )
@@ -134,4 +135,32 @@ func (e *Exec) lockAcquired(st *State, name string, x *ast.CallExpr) {
 	a.anchor = nil
 	st.anchor = a
 	e.trust("lock acquisition re-establishes the lock invariants (requires clauses) after arbitrary interference; old() is anchored at the last acquisition")
+}
+
+// packVariadic packs the trailing arguments of a variadic callee into a slice, as evArgs does for calls
+// in code, so that contract expressions and code build the same terms.
+func (e *Exec) packVariadic(st *State, sig *types.Signature, args []Val) []Val {
+	if sig == nil || !sig.Variadic() {
+		return args
+	}
+	np := sig.Params().Len()
+	if len(args) == np {
+		if _, ok := args[np-1].GT.(*types.Slice); ok || isSlcSort(args[np-1].T.Sort) {
+			return args // already a slice (f(xs...) form is not distinguished in contracts)
+		}
+	}
+	if len(args) < np-1 {
+		return args
+	}
+	vt := sig.Params().At(np - 1).Type().(*types.Slice)
+	el := e.sr.sortOf(vt.Elem())
+	arr := e.constArray(SInt, el, vt.Elem())
+	n := int64(0)
+	for i := np - 1; i < len(args); i++ {
+		v := e.convertTo(st, args[i], vt.Elem())
+		arr = Store(arr, IntLit(n), v.T)
+		n++
+	}
+	packed := Val{T: MkSlc(el, arr, IntLit(n), BoolLit(n > 0)), GT: vt}
+	return append(append([]Val{}, args[:np-1]...), packed)
 }
